@@ -104,12 +104,15 @@ Definition ix_delete (Q : labels) (st : index) : index :=
 
 Inductive iop :=
 | IPut (K : labels) (stack : bytes) (c : N)
-| IDelete (Q : labels).
+| IDelete (Q : labels)
+| IDrop (K : labels).    (* deleteSegmentAndRelatedData(K) alone: what a retention pass
+                            (Storage.DeleteDataBefore) does to a series all of whose buckets have expired *)
 
 Definition ix_step (st : index) (o : iop) : index :=
   match o with
   | IPut K s c => ix_put K s c st
   | IDelete Q => ix_delete Q st
+  | IDrop K => delete_series K st
   end.
 Definition ix_run (ops : list iop) : index := fold_left ix_step ops ix_empty.
 
@@ -127,6 +130,7 @@ Definition live_step (L : list labels) (o : iop) : list labels :=
   match o with
   | IPut K _ _ => if existsb (labels_eqb K) L then L else L ++ [K]
   | IDelete Q => filter (fun K => negb (sub_labels Q K)) L
+  | IDrop K => filter (fun K' => negb (labels_eqb K' K)) L
   end.
 Definition live (ops : list iop) : list labels := fold_left live_step ops [].
 
@@ -135,6 +139,7 @@ Definition lp_step (acc : list (labels * bytes * N)) (o : iop) : list (labels * 
   match o with
   | IPut K s c => acc ++ [(K, s, c)]
   | IDelete Q => filter (fun x => negb (sub_labels Q (fst (fst x)))) acc
+  | IDrop K => filter (fun x => negb (labels_eqb (fst (fst x)) K)) acc
   end.
 Definition live_puts (ops : list iop) : list (labels * bytes * N) := fold_left lp_step ops [].
 
